@@ -29,8 +29,9 @@ FLin(pt, ms, G) ==
   LET t == Len(ms)
       idx == [a \in 1 .. 2 * t |-> IF a <= t THEN XI(pt, ms[a]) ELSE PI(pt, ms[a - t])]
       loc(i) == IF \E a \in 1 .. 2 * t : idx[a] = i THEN CHOOSE a \in 1 .. 2 * t : idx[a] = i ELSE 0
-      row(a) == LET s == [b \in 1 .. 2 * t |-> Res(G[a][b]) * pt[idx[b]]] IN
-                (IF t = 1 THEN s[1] + s[2] ELSE s[1] + s[2] + s[3] + s[4]) % P
+      row(a) == LET RECURSIVE Sm(_)
+                    Sm(b) == IF b > 2 * t THEN 0 ELSE (Res(G[a][b]) * pt[idx[b]] + Sm(b + 1)) % P
+                IN  Sm(1)
   IN  [i \in 1 .. Len(pt) |-> IF loc(i) = 0 THEN pt[i] ELSE row(loc(i))]
 FDisp(pt, m, d) == [i \in 1 .. Len(pt) |-> IF i = XI(pt, m) THEN (pt[i] + Res(d[1])) % P
                                            ELSE IF i = PI(pt, m) THEN (pt[i] + Res(d[2])) % P ELSE pt[i]]
@@ -45,7 +46,7 @@ Sgn(op, r)      == IF op.dag THEN RNeg(r) ELSE r
 
 FApply(pt, op, k) ==
   LET m == op.modes[1] IN
-  CASE op.name \in Symp1Names \cup Symp2Names -> FLin(pt, op.modes, SympOf(op))
+  CASE op.name \in Symp1Names \cup Symp2Names \cup SympNNames -> FLin(pt, op.modes, SympOf(op))
     [] op.name \in DispNames -> FDisp(pt, m, DispOf(op, k))
     [] op.name = "Vgate" -> [pt EXCEPT ![PI(pt, m)] = (@ + Res(Sgn(op, op.p[1])) * pt[XI(pt, m)] * pt[XI(pt, m)]) % P]
     [] op.name = "Kgate" -> Turn(pt, m, KInt(op) * Energy(pt, m))
